@@ -541,7 +541,7 @@ func concreteArg(pa Param, m gosx.Model, strlen map[string]int) (lit string, arg
 		for i := range b {
 			b[i] = byte(m[fmt.Sprintf("%s_%d", pa.Name, i)])
 		}
-		return strconv.Quote(string(b)), map[string]interface{}{"T": "string", "S": string(b)}
+		return strconv.Quote(string(b)), map[string]interface{}{"T": "string", "B": b}
 	case ti.Bits == -1:
 		f := math.Float64frombits(v)
 		return fmt.Sprintf("math.Float64frombits(%#x)", v), map[string]interface{}{"T": "float64", "V": math.Float64bits(f)}
@@ -559,11 +559,25 @@ func concreteArg(pa Param, m gosx.Model, strlen map[string]int) (lit string, arg
 
 type nativeProgResp struct {
 	Rets []struct {
-		T   int
-		Num uint64
-		Str string
+		T    int
+		Num  uint64
+		Str  string
+		StrB []byte
 	}
 	EvalErr, CallErr, Out, HostPanic, Err string
+	OutB                                  []byte
+}
+
+// UnmarshalJSON restores the exact bytes of texts that JSON strings cannot carry (invalid UTF-8).
+func (r *nativeProgResp) fix() {
+	if r.OutB != nil {
+		r.Out = string(r.OutB)
+	}
+	for i := range r.Rets {
+		if r.Rets[i].StrB != nil {
+			r.Rets[i].Str = string(r.Rets[i].StrB)
+		}
+	}
 }
 
 // replayProg runs both sides natively on the model's inputs and reports whether they really disagree.
@@ -579,6 +593,7 @@ func (c *Ctx) replayProg(p *Prog, m gosx.Model) (bool, map[string]interface{}) {
 	var gr nativeProgResp
 	req := map[string]interface{}{"Op": "prog", "Prog": map[string]interface{}{"Src": p.Src, "Files": p.Files, "Pkg": "main", "Entry": "main." + p.Entry, "NRes": len(p.Results), "Args": args, "Mode": p.Mode}}
 	out, err := c.Native.RunOnce(req, &gr, 60)
+	gr.fix()
 	goat := ""
 	if err != nil {
 		goat = "HOST-CRASH: " + lastLines(out, 3)
